@@ -18,11 +18,14 @@ use gimli::{
 };
 use serde_json::{json, Value};
 
+#[path = "c06_corpus.rs"]
+mod corpus;
+
 pub fn info() -> PropInfo {
     PropInfo {
         id: "C06",
         level: "exploration",
-        rule: "Programs are lists of call-frame instructions assembled by gen/cfi.rs into a one-CIE one-FDE .debug_frame or .eh_frame section (byte order, address size 1/2/4/8, 32/64-bit entries, CIE version 1/3/4 and storage type vary with the case index) and interpreted by model/cfi.rs. Streams: `exh` = every sequence of length <= 4 over a 16-instruction alphabet x every CIE/FDE split x 5 alignment-factor pairs (rel: all 1 724 325 programs; dbg: length <= 3 fully and a seed-chosen 1/32 slice of length 4, 1/4 in the thorough tier); `opc` = every opcode byte 0x00-0xff x 96 operand/context variants (boundary operands, CIE or FDE placement, expression-CFA / remembered-state prefixes, both vendors, set_loc under every 'R' pointer encoding); `raw` = truncated / over-long operands; `cap` = programs that reach exactly N-1, N and N+1 rules / rows for each of 9 storages (incl. initial-rule copy row, remembers in the CIE, pops past the minimum); `rand` = seeded random programs of up to 300 instructions. A case is non-trivial when the model executes at least one instruction; enumerated cases are distinct by construction (index <-> program bijection), random ones are de-duplicated by (config, section bytes) digest.",
+        rule: "Programs are lists of call-frame instructions assembled by gen/cfi.rs into a one-CIE one-FDE .debug_frame or .eh_frame section (byte order, address size 1/2/4/8, 32/64-bit entries, CIE version 1/3/4 and storage type vary with the case index) and interpreted by model/cfi.rs. Streams: `exh` = every sequence of length <= 4 over a 16-instruction alphabet x every CIE/FDE split x 5 alignment-factor pairs (rel: all 1 724 325 programs; dbg: length <= 3 fully and a seed-chosen 1/32 slice of length 4, 1/4 in the thorough tier); `opc` = every opcode byte 0x00-0xff x 96 operand/context variants (boundary operands, CIE or FDE placement, expression-CFA / remembered-state prefixes, both vendors, set_loc under every 'R' pointer encoding); `raw` = truncated / over-long operands; `cap` = programs that reach exactly N-1, N and N+1 rules / rows for each of 9 storages (incl. initial-rule copy row, remembers in the CIE, pops past the minimum); `rand` = seeded random programs of up to 300 instructions. A case is non-trivial when the model executes at least one instruction; enumerated cases are distinct by construction (index <-> program bijection), random ones are de-duplicated by (config, section bytes) digest. `corpus` (external-tool oracle; mon/corpus.rs) = small C (two translation units + a header in a sub-directory) and C++ (templates, inlining, virtual calls, destructors, throw/catch) programs compiled and linked at check time with gcc 12 / clang 14: quick tier 4 configurations (g++ -gdwarf-5 -O2; clang -gdwarf-5 -O2 -fno-asynchronous-unwind-tables; gcc -m32 -gdwarf-3 -O2 static without libc; clang++ -gdwarf-4 -O0), thorough tier 58 ({gcc,clang} x -gdwarf-{2,3,4,5} x {-O0,-O2} x {C,C++}, -gdwarf64 with gcc-written line tables, -fdebug-types-section, .debug_frame builds, 32-bit builds, --gc-sections, frame pointers, -Os/-O3); one case per configuration, sharded by index; executables and tool dumps are cached under .work/corpus by a hash of compiler version, flags and sources. For C06 the rows of every FDE (default heap storage, one reused UnwindContext) are compared with `readelf --debug-dump=frames-interp`: row start addresses, CFA (register+offset, or 'exp'), the rule of every register readelf has a column for or gimli lists (through registers() and through register(r) for r up to the largest column), rows chained and ending at the FDE end; and the decoded instruction list of every CIE and FDE is compared with the list printed by `llvm-dwarfdump --eh-frame` (mnemonic class, registers, offsets after applying the alignment factors). Non-trivial when readelf printed at least one entry; distinct by digest of the section.",
         assumptions: &[
             "storage capacities (StoreOnHeap: 4 rows / 192 rules; custom storages: their array sizes; Vec: unlimited) and the rule 'rows used = 1 + remembered + (1 if the CIE leaves >= 2 initial rules)' are taken from the pinned tree; only 'success iff the model's need fits, the specific error otherwise' is judged",
             "advance_loc/set_loc inside CIE initial instructions are interpreted like in an FDE starting at address 0 with the rows discarded (the standard is silent)",
@@ -30,6 +33,9 @@ pub fn info() -> PropInfo {
             "an explicit DW_CFA_undefined rule is reported as Some(Undefined), a register never mentioned as None",
             "the last row ends at initial_location + address_range wrapped to the address size even when the instructions advanced past it",
             "after the first error of a table no further call is made (the property fixes only the error itself)",
+            "corpus: readelf 2.40 (rows) and llvm-dwarfdump 14 (instruction lists) are the oracles; tool/compiler failures and unparsable dumps are inconclusive, never violations",
+            "corpus normalisations (presentation only): readelf 'u' and a register without a column both mean gimli None or Some(Undefined); readelf prints no table for an FDE whose instructions are all DW_CFA_nop - the expected table is then the CIE's row starting at the FDE's initial location; expression rules are compared as 'exp'/'vexp' without their contents; saved_args_size is not printed by readelf and not compared; register names are mapped to x86-64 / i386 DWARF numbers ('ra' = the CIE's return-address column); llvm's advance_loc1/2/4, offset_extended, restore_extended are folded into gimli's AdvanceLoc/Offset/Restore and expression operands are not compared",
+            "corpus: llvm-dwarfdump 14's own row interpretation is not used (it does not restore the CFA on DW_CFA_restore_state)",
         ],
         exhaustive_subspaces: &[
             "all instruction sequences of length <= 4 over the 16-instruction alphabet x all CIE/FDE splits x 5 alignment-factor pairs (rel profile)",
@@ -45,6 +51,9 @@ pub fn info() -> PropInfo {
             "kind.debug_frame", "kind.eh_frame", "addr.1", "addr.2", "addr.4", "addr.8",
             "opc.all256", "vendor.aarch64", "vendor.default", "negate_ra_state.ok",
             "exh.factor.0", "exh.factor.1", "exh.factor.2", "exh.factor.3", "exh.factor.4",
+            "corpus.object", "corpus.cc.gcc", "corpus.cc.clang", "corpus.lang.c", "corpus.lang.cpp", "corpus.unwind.eh_frame", "corpus.unwind.debug_frame", "corpus.unwind.addr4", "corpus.unwind.fde", "corpus.unwind.rows",
+            "corpus.unwind.fde.all_nops", "corpus.unwind.cfa.regoff", "corpus.unwind.cfa.exp", "corpus.unwind.rule.offset", "corpus.unwind.rule.undefined", "corpus.unwind.ins",
+            "corpus.unwind.ins.remember_state", "corpus.unwind.ins.restore_state", "corpus.unwind.ins.def_cfa_expression", "corpus.unwind.ins.def_cfa_register", "corpus.unwind.ins.advance_loc", "corpus.unwind.ins.offset",
         ],
         run,
     }
@@ -1217,6 +1226,7 @@ fn random_programs(ctx: &mut Ctx) {
 }
 
 pub fn run(ctx: &mut Ctx) {
+    corpus::run(ctx);
     raw_cases(ctx);
     capacity(ctx);
     opcode_sweep(ctx);
